@@ -1,6 +1,6 @@
 """C08 — Identifiers bind lexically and evaluation honours the same binding (scope discipline)."""
 import re
-from facts import hir_walk, callee_def, callee_id, callee_of, variant_of, FnCtx
+from facts import hir_walk, callee_def, callee_id, callee_of, variant_of, FnCtx, pat_variants
 from positions import WRAP
 import pathrules as P
 import mirflow as MF
@@ -97,6 +97,58 @@ def opener_kinds(c, facts, fn, arm_variant, target_method, owner='env::Env::'):
                                     kinds[k] = tgt.qname
                         if y['k'] == 'mcall' and y['m'].endswith(owner + target_method):
                             for k in ks:
+                                kinds.setdefault(k, fn.qname)
+    if kinds:
+        return kinds
+    # two stages: a helper classifies (cursor, node kind) into a variant of a private enum, resolve() dispatches on it
+    fam = [f2 for f2 in facts.family(fn, depth=1) if f2.hir and f2.kind != 'Closure']
+    classes = {}     # enum variant -> set of node kinds, for arms of NodeCursor::<arm_variant>
+    for f2 in fam:
+        for e, anc in hir_walk(f2.hir['body']):
+            if e['k'] != 'match':
+                continue
+            for arm in e['arms']:
+                if arm_variant not in [v for v in (variant_of(p['path']) for p in [arm['pat']] if p['k'] in ('ts', 'struct')) if v]:
+                    continue
+                for x, xa in hir_walk(arm['body']):
+                    if x['k'] != 'if':
+                        continue
+                    ks = []
+                    for y, _ in hir_walk(x['cond']):
+                        if y['k'] == 'call' and (callee_def(y) or '').endswith('AbstractSyntaxNode::cast'):
+                            m = WRAP.search(y['ty'])
+                            if m:
+                                ks.append(m.group(1))
+                    if not ks:
+                        continue
+                    t = x['then']
+                    while t['k'] == 'block' and t['expr'] is not None and not t['stmts']:
+                        t = t['expr']
+                    ev = None
+                    if t['k'] == 'call':
+                        ev = variant_of(t['f'])
+                    elif t['k'] == 'path' and t['p'].get('res') == 'def':
+                        ev = variant_of(t['p'])
+                    if ev:
+                        classes.setdefault(ev, set()).update(ks)
+    if classes:
+        for e, anc in hir_walk(fn.hir['body']):
+            if e['k'] != 'match':
+                continue
+            for arm in e['arms']:
+                vs = [v for v in pat_variants(arm['pat']) if v in classes]
+                if not vs:
+                    continue
+                for y, _ in hir_walk(arm['body']):
+                    if y['k'] == 'call':
+                        tgt = facts.fns.get(callee_id(y))
+                        if tgt is not None and tgt.mir and P.call_blocks(tgt, owner + target_method):
+                            for v in vs:
+                                for k in classes[v]:
+                                    kinds[k] = tgt.qname
+                    if y['k'] == 'mcall' and y['m'].endswith(owner + target_method):
+                        for v in vs:
+                            for k in classes[v]:
                                 kinds.setdefault(k, fn.qname)
     return kinds
 
